@@ -62,6 +62,34 @@ func runC14(w *World, r *Report) {
 	r.Rule("registry-ro", "pointers loaded from package-level tables are not written through, retained or returned", 1)
 	r.Rule("noscratch", "no pooled or function-level scratch state shared between calls", 1)
 	if r.Prop == "C14" {
+		r.Rule("closure-state", "a function value that outlives its maker does not write to variables it captured", 1)
+		closureStateRule(w, r)
+	}
+	if r.Prop == "C14" {
+		// memory shared between goroutines without anyone intending it: a parsed message that still points
+		// into the stream's recycled frame buffer is written by the reader goroutine while the consumer reads
+		// it, and pool buffers that share one backing array grow into each other
+		r.Rule("owns-memory", "nothing a decoder returns points into its input (the C12 may-alias rule): the reader goroutine refills the frame buffer while the consumer holds the message", 100)
+		r.Rule("pool-disjoint", "every buffer put into the stream's pool has backing storage of its own (the C10 rule)", 1)
+		{
+			// (sub-reports under the other properties' names: their own imports of this property's rules test
+			// the name and would otherwise come back here)
+			r2 := NewReport("C12", r.Tier)
+			runC12(w, r2)
+			for _, o := range r2.Obs {
+				if o.Rule == "noalias" {
+					o.Rule = "owns-memory"
+					r.Add(o)
+				}
+			}
+			r3 := NewReport("C10", r.Tier)
+			runC10(w, r3)
+			for _, o := range r3.Obs {
+				if o.Rule == "pool-disjoint" {
+					r.Add(o)
+				}
+			}
+		}
 		// a builder that writes through (or keeps) an argument makes goroutines that pass the same read-only
 		// value interfere: the argument rules of C17 for the generic match-field builder
 		r.Rule("argsafe", "the generic builder neither writes through nor keeps its value and mask arguments", 2)
@@ -499,4 +527,96 @@ func importStateless(w *World, r *Report, rule string) {
 			r.Add(o)
 		}
 	}
+}
+
+// closureStateRule: a function value that outlives the call that made it (returned, stored, sent, started
+// as a goroutine) and writes to a variable it captured has state that every caller of the value shares —
+// a generator that keeps its template in a captured variable is a data race between the goroutines that
+// draw from it. For every closure that escapes: no store into a captured variable (or into memory reached
+// from one). Closures that run before their maker returns (deferred, called in place, passed to a function
+// that calls them synchronously such as sort.Slice) may write their maker's locals.
+func closureStateRule(w *World, r *Report) {
+	sw := w.SSA()
+	var fns []*ssa.Function
+	for fn := range sw.All {
+		if w.inModule(fn) && len(fn.Blocks) > 0 && !isTestFunc(w, fn) {
+			fns = append(fns, fn)
+		}
+	}
+	sort.Slice(fns, func(i, j int) bool { return fns[i].String() < fns[j].String() })
+	nClos := 0
+	for _, fn := range fns {
+		for _, b := range fn.Blocks {
+			for _, ins := range b.Instrs {
+				mc, ok := ins.(*ssa.MakeClosure)
+				if !ok {
+					continue
+				}
+				cf, ok := mc.Fn.(*ssa.Function)
+				if !ok || len(cf.FreeVars) == 0 {
+					continue
+				}
+				// does the function value leave the call?
+				escapes := ""
+				for _, ref := range *mc.Referrers() {
+					switch x := ref.(type) {
+					case *ssa.Return:
+						escapes = "returned"
+					case *ssa.Store:
+						if x.Val == mc {
+							escapes = "stored"
+						}
+					case *ssa.MapUpdate, *ssa.Send:
+						escapes = "stored"
+					case *ssa.Go:
+						escapes = "started as a goroutine"
+					case *ssa.MakeInterface:
+						escapes = "boxed into an interface"
+					case *ssa.Call:
+						// passed to another function: synchronous helpers of the standard library call it at once
+						if x.Call.Value != mc {
+							if cf2 := x.Call.StaticCallee(); cf2 == nil || w.inModule(cf2) {
+								escapes = "passed on"
+							}
+						}
+					}
+				}
+				if escapes == "" {
+					continue
+				}
+				nClos++
+				var bad []string
+				for _, cb := range cf.Blocks {
+					for _, ci := range cb.Instrs {
+						st, ok := ci.(*ssa.Store)
+						if !ok {
+							continue
+						}
+						root := st.Addr
+						for i := 0; i < 20; i++ {
+							switch a := root.(type) {
+							case *ssa.FieldAddr:
+								root = a.X
+								continue
+							case *ssa.IndexAddr:
+								root = a.X
+								continue
+							}
+							break
+						}
+						if fv, ok := root.(*ssa.FreeVar); ok {
+							bad = append(bad, fmt.Sprintf("store into the captured variable %s at %s", fv.Name(), w.Pos(st.Pos())))
+						}
+					}
+				}
+				inst := fmt.Sprintf("closure@%s", cf.Name())
+				if len(bad) > 0 {
+					r.Fail(VViolation, "closure-state", ssaFuncKey(w, fn), inst, w.Pos(cf.Pos()), "the function value is "+escapes+" and writes state it captured: "+strings.Join(bad, "; ")+" — every caller of the value, on whatever goroutine, reads and writes that one variable")
+				} else {
+					r.OK("closure-state", ssaFuncKey(w, fn), inst, w.Pos(cf.Pos()), "the function value is "+escapes+"; it does not store into anything it captured", true)
+				}
+			}
+		}
+	}
+	r.OK("closure-state", "inventory", "", "-", fmt.Sprintf("%d function values that outlive their maker examined", nClos), true)
 }
